@@ -16,6 +16,8 @@ if ! echo "$out" | grep -q "Summary"; then
   [ "$pass" -ge 48 ] && exit 0 || exit 1
 fi
 echo "$out" | tail -5
-echo "$out" | grep -q "48 passed" || exit 1
-bad=$(echo "$out" | grep -E "^\s+(FAIL|SIGABRT|SIGSEGV)" | grep -vE "demos|splat_call" | wc -l)
+# every test of the pinned stable_pass list must pass; demos/splat_call are the baseline's always_fail list
+npass=$(echo "$out" | grep -oE "[0-9]+ passed" | head -1 | grep -oE "[0-9]+")
+[ "${npass:-0}" -ge 48 ] || exit 1
+bad=$(echo "$out" | grep -E "^\s+(FAIL|SIGABRT|SIGSEGV|TIMEOUT)" | grep -vE "noulith::test (demos|splat_call)$" | wc -l)
 [ "$bad" -eq 0 ]
